@@ -528,5 +528,7 @@ def run(ck):
     shared.truthy_zero(ck, [PDB, GRO, 'vermouth/truncating_formatter.py'])
     shared.pure_writer(ck, pdb, wfn, [wfn.args.args[0].arg])
     shared.pure_writer(ck, gro, gw, [gw.args.args[0].arg])
+    shared.sorted_nodes_rule(ck, 'FMT-order')
+    shared.pdb_atom_record_rules(ck, 'PROV-record')
     ck.assume('PDB/GRO layouts are compared between the writer format strings and the reader column tables of the same tree; '
               'numeric precision of the round trip is not decided')
